@@ -1051,6 +1051,10 @@ func init() {
 		w := ex.W
 		drv, dsn := a[0].(*Term), a[1].(*Term)
 		w.sqlOpens = append(w.sqlOpens, [2]*Term{drv, dsn})
+		if w.db != nil && w.sqlDBObj != nil {
+			// the harness has opened the symbolic database already (vx.DB): the constructor gets that handle
+			return &TupleV{vs: []Value{w.sqlDBObj, nilErr()}}
+		}
 		backend := "sqlite"
 		if d, ok := drv.StrVal(); ok && d == "postgres" {
 			backend = "postgres"
